@@ -33,7 +33,7 @@ def c16(ck):
     allk = [k for k in kinds() if k != "upgrade"]
     for _ in range(4 if quick else 30):
         seqs.append([(rng.choice(allk), rng.choice(list(ALL_FLAGS))) for _ in range(rng.randint(1, 8))])
-    transports = ["unixpath", "unixmode", "unixstale", "unixmodestale", "abstract", "tcp", "tcp6", "tcphost", "activate", "bridge", "foreignact", "foreignactnb"]
+    transports = ["unixpath", "unixmode", "unixstale", "unixmodestale", "abstract", "tcp", "tcp6", "tcphost", "activate", "bridge", "foreignact", "foreignactnb", "foreignactidle"]
     for si, seq in enumerate(seqs):
         reqs = [make(k, f, {"n": i}) for i, (k, f) in enumerate(seq)]
         s = stream_of(reqs)
@@ -121,6 +121,9 @@ def c16(ck):
                     ck.failures.append({"what": "a service activated by a foreign activator (listening socket passed as descriptor 3, %s) did not keep serving: a second "
                                                 "client got no GetInfo reply or the service had exited" % ("O_NONBLOCK set" if t.endswith("nb") else "blocking"),
                                         "second_client": again[:200], "service_alive": f.get("alive"), "connect_error": f.get("connect_err")})
+            if t == "foreignactidle" and (f.get("exited") != "1" or f.get("sockfile") != "1"):
+                ck.failures.append({"what": "an activated service instance that ended by idle timeout removed the activator's socket file (or did not end): the "
+                                            "next client of the activator finds no socket", "exited_within_6s": f.get("exited"), "socket_file_still_there": f.get("sockfile")})
             if t == "activate":
                 rep = dict(x.split("=", 1) for x in unhx(f.get("report", "-")).decode().split() if "=" in x)
                 okk = (rep.get("pid") == f.get("childpid") and rep.get("LISTEN_PID") == rep.get("pid") and rep.get("LISTEN_FDS") == "1"
